@@ -34,7 +34,9 @@ THEOREMS = [
 ]
 RULE = ("cases: (n,k) pairs for comb / comb_with_replacement inside, across and beyond the 100x12 tables "
         "(incl. k > n/2 and results just below 2^53); random ascending genotypes (ploidy 1..40, up to 10^6 alleles) "
-        "for encode / decode / increment; complete enumerations for small (n_alleles, ploidy). "
+        "for encode / decode / increment, the same genotypes as int8 / int16 / int32 arrays, pooled-sample genotypes of ploidy 10..13 over "
+        "46..110 alleles (table edge) against an independent VCF rank; every entry of the two 100x12 lookup tables; negative arguments / indices; "
+        "complete enumerations for small (n_alleles, ploidy) and across the table edges ((101,2), (2,13), (3,11), (3,13)). "
         "Non-trivial: outside the lookup table, or a genotype with a repeated allele and >= 3 distinct alleles, "
         "or a complete enumeration with >= 10 genotypes. Distinctness by canonical request line.")
 LIMIT = 2 ** 53
